@@ -17,7 +17,8 @@ PROPS["C01"] = {
              "15% token soup, 10% random code points; wide runs add out-of-range code points) plus the exhaustive enumerations; "
              "every text goes through all six parse entry forms for wchar_t and, when representable, char. "
              "Non-trivial = accepted with >= 2 components present, or rejected with L >= 1 (the rejection is not at the first character); "
-             "distinct by text."),
+             "distinct by text."
+             " Two further entries pass the optional errorPos output as NULL. Every allocation-failure position of uriParseSingleUriExMm: the answer is the out-of-memory code or the fault-free verdict, never the opposite verdict. Long mode (1 case in 16) scales lengths by 8 and may place one segment of 2^16+1..3 characters."),
     "assumptions": ["the oracle is my transcription of RFC 3986 Appendix A into an automaton (self-checked against RFC examples and inet_pton)",
                     "error positions inside a bracketed literal are only required to stay within that literal (latitude of the statement)",
                     "inputs longer than ~150 characters are rare; lengths near INT_MAX are out of reach"],
@@ -36,7 +37,8 @@ PROPS["C02"] = {
     "thorough": {"cases": 560000, "ceiling_s": 3000},
     "rule": ("accepted texts: 80% grammar-directed G_uri, 20% accepted survivors of G_noise, plus the accepted members of the exhaustive enumerations; "
              "non-trivial = >= 3 components present, or an IP host, or >= 2 path segments; distinct by text"
-             " Every allocation-failure position k of uriParseSingleUriExMm is tried as well: a parse that still reports success must deliver exactly the same components."),
+             " Every allocation-failure position k of uriParseSingleUriExMm is tried as well: a parse that still reports success must deliver exactly the same components."
+             " The public uriParseIpFourAddress is called on every registered-name / IPv4 host text (success iff the grammar's IPv4address, same bytes)."),
     "assumptions": ["only texts accepted by the grammar oracle are judged (rejections are C01's)", "empty components may be any zero-length range"],
 }
 
@@ -83,7 +85,8 @@ PROPS["C05"] = {
     "quick": {"cases": 90000},
     "thorough": {"cases": 720000, "ceiling_s": 3000},
     "rule": ("URIs: 36% parsed G_uri, 36% results of uriAddBaseUriEx on correlated pairs, 28% normalised with a random or full mask; each with all capacities -2..N+3 and charsWritten "
-             "NULL in 1/3 of cases. Non-trivial = URI with >= 3 emitted pieces and at least one capacity strictly inside the text (0 < c <= N); distinct by case (each covers all its capacities)"),
+             "NULL in 1/3 of cases. Non-trivial = URI with >= 3 emitted pieces and at least one capacity strictly inside the text (0 < c <= N); distinct by case (each covers all its capacities)"
+             " Sources also include created references, objects made owner first, and the survivor of a failed make-owner / normalisation; capacities include INT_MIN, INT_MIN+1 and -INT_MAX/2."),
     "assumptions": ["int accumulation beyond INT_MAX would need a multi-gigabyte URI and is out of reach"],
 }
 
@@ -131,7 +134,8 @@ PROPS["C08"] = {
     "thorough": {"cases": 48000, "ceiling_s": 3000},
     "rule": ("G_uri texts with case/percent-rich additions (upper-case schemes and hosts, %41 %7e %2F %c3%A4, IP-literal hosts in upper case) x 64 masks x {borrowed, owned} x {default, recording manager}; "
              "non-trivial = at least two components change under the full mask or the path loses a dot segment; distinct by text (each covers its 128 (mask, ownership) sub-cases)"
-             " With the recording manager every allocation-failure position k of the full-mask call is tried in both ownership states: a call that still reports success must give the full normal form. Enumerated domain: every text of the bounded path domain x 64 masks x 2 ownerships."),
+             " With the recording manager every allocation-failure position k of the full-mask call is tried in both ownership states: a call that still reports success must give the full normal form. Enumerated domain: every text of the bounded path domain x 64 masks x 2 ownerships."
+             " After each normalisation through the recording manager the URI is released and the manager must end empty without having seen a foreign block."),
     "assumptions": ["non-ASCII wide characters are outside the statement"],
     "enumerate": {"texts": "every base / reference / absolute URI of the bounded path domain (paths <= 3 / 5 segments over {a, '', ., .., b:c}) x 64 masks x 2 ownership states"},
 }
@@ -151,7 +155,8 @@ PROPS["C10"] = {
              "Non-trivial = same scheme and same host presence/text (the relative branch is reachable); distinct by (S, B, mode)"
              " Schemes related by extension/prefix in the other-scheme class; IP hosts differing in one half/octet; with the recording manager a quarter of the calls have their k-th allocation fail once. Enumerated domain: every (source, base) pair of absolute URIs of the bounded domain x both modes."
              " S / B are made owner before the call in 25% / 17%; after the reference and the way back have been released S and B must be unchanged and releasable (ASan). Base queries include the empty query."
-             " One case in ten shares memory between the operands: B parsed from a prefix view of S's own buffer (S = B + a few characters), or one object passed as source and base. In long mode a third of the bases lie 250-300 directories deep."),
+             " One case in ten shares memory between the operands: B parsed from a prefix view of S's own buffer (S = B + a few characters), or one object passed as source and base. In long mode a third of the bases lie 250-300 directories deep."
+             " domainRootMode is a non-zero value other than URI_TRUE in one case of twelve (the round trip holds under either reading). The way back is also taken from the written-out reference."),
     "assumptions": ["when both S and B lack a scheme either error code is accepted"],
     "enumerate": {"pairs": "every ordered pair of absolute URIs (schemes s|t, authority none|//h|//g|//u@h:1, path <= 2 (quick) / 3 (thorough) segments over {a, '', ., .., b:c}, rooted and rootless, query none|?q) x both modes"},
 }
@@ -185,7 +190,8 @@ PROPS["C11"] = {
     "rule": ("arms: 17% three independent G_uri texts, 42% text + single-component mutation (+ second mutation or copy), 17% equal by construction (re-parse / make-owner copy / resolve empty reference), "
              "25% three objects out of a generated history. Non-trivial = the pair differs in exactly one component, or is equal without being the independent arm; distinct by case"
              " A further arm (12%) compares overlapping views of one buffer ([0,n-i), [j,n) or [0,n-j), [0,n)), so ranges of different URIs start or end at the same address."
-             " History objects are also compared with the parse of their own recomposed text (identical texts => equal). The host mutation includes IPvFuture literal <-> registered name of the same characters."),
+             " History objects are also compared with the parse of their own recomposed text (identical texts => equal). The host mutation includes IPvFuture literal <-> registered name of the same characters."
+             " History arm: a fifth of the histories run their producing steps with the k-th allocation failing once. Pairs may have the absolute-path flag set by hand on URIs with a host."),
     "assumptions": [],
 }
 
@@ -201,7 +207,8 @@ PROPS["C16"] = {
     "quick": {"cases": 90000},
     "thorough": {"cases": 720000, "ceiling_s": 3000},
     "rule": ("G_text over 1..255 built from chunks (%, %4, %41, %4G, %%41, %0D%0A, +, space, CR, LF, CRLF, 0x7f, 0x80, 0xff ...) with truncated triplets over-weighted at the very end; "
-             "both entry points of each function; non-trivial = contains a character that must be escaped, a well-formed triplet or a malformed '%' and has length >= 2; distinct by text"),
+             "both entry points of each function; non-trivial = contains a character that must be escaped, a well-formed triplet or a malformed '%' and has length >= 2; distinct by text"
+             " One case in sixteen passes a non-zero value other than URI_TRUE for an escape flag (reading-independent clauses only); one in sixteen runs with the process locale set to C.UTF-8."),
     "assumptions": ["code points above 255 are outside the statement"],
 }
 
@@ -219,7 +226,8 @@ PROPS["C17"] = {
     "rule": ("lists of 1-6 items, keys/values over 1..255 from chunks (%, %41, +, space, CR, LF, CRLF, &, =, ==, #, 0x80 ...), value NULL in 1/4, empty key in 1/6; both flags, four break modes, "
              "both managers, itemCount NULL in 1/3, plain API in 1/4; 1/40 of the cases are 'huge'. Non-trivial = >= 2 items, at least one NULL/empty value or empty key or a character that "
              "needs escaping, and a capacity strictly inside (0, R]; or a huge list; distinct by case"
-             " One case in eight passes a non-zero value other than URI_TRUE for a compose flag; only the reading-independent clauses are asserted then."),
+             " One case in eight passes a non-zero value other than URI_TRUE for a compose flag; only the reading-independent clauses are asserted then."
+             " Half of the huge lists are tuned so that the worst-case total is exactly INT_MAX-2 .. INT_MAX+2; huge lists are also composed directly into 8- and 64-character guarded buffers."),
     "assumptions": ["lists with embedded NUL cannot be expressed through the API"],
 }
 
@@ -235,7 +243,8 @@ PROPS["C18"] = {
     "quick": {"cases": 120000},
     "thorough": {"cases": 960000, "ceiling_s": 3000},
     "rule": ("classes: unix absolute 25%, unix relative 17%, windows drive 25%, windows UNC 17%, windows relative 17%; segments from chunks incl. space % : # ? 0x7f 0x80 0xff; "
-             "non-trivial = the name contains a character that needs escaping or >= 2 separators; distinct by (class, name)"),
+             "non-trivial = the name contains a character that needs escaping or >= 2 separators; distinct by (class, name)"
+             " Unix names may start with 250-260 slashes (1 in 64 of the absolute ones), names with 250-300 separators (1 in 64) and names longer than 2^16 characters (1 in 128) are generated."),
     "assumptions": ["'file:/x' is only a short form while the name does not itself start with '//'"],
 }
 
@@ -269,7 +278,8 @@ PROPS["C15"] = {
     "thorough": {"cases": 480000, "ceiling_s": 3000},
     "rule": ("sequences of 1-40 ops: realloc 29%, malloc 24%, free 19%, calloc 14%, reallocarray 14%; pointer argument NULL in 1/8; fault mask on the first 40 backend requests in half of the sequences. "
              "Non-trivial = >= 3 live blocks at some point and a grow after a shrink or a backend failure during growth; distinct by sequence"
-             " Two managers completed from two different backends live side by side (a block returns to the manager that made it; each backend's ledger must match); sizes include 70 000 - 270 000 byte blocks."),
+             " Two managers completed from two different backends live side by side (a block returns to the manager that made it; each backend's ledger must match); sizes include 70 000 - 270 000 byte blocks."
+             " Backends with extra functions; the backend struct must be unchanged by the completion; uriTestMemoryManager on the completed manager in one case of eight; sizes near 2/3 of the size_t range."),
     "assumptions": [],
     "enumerate": {"huge_block": "one fixed history with a block of 4 GiB + 64 bytes (malloc, grow, shrink, free) through a completed manager over a mapping backend; run in one shard, skipped (and counted) when less than 12 GiB are free"},
 }
@@ -287,7 +297,8 @@ PROPS["C12"] = {
     "thorough": {"cases": 560000, "ceiling_s": 3000},
     "rule": ("histories of 2 correlated parses + 1..7 steps incl. observers, then a final make-owner (50%) or normalise with mask 1..63 on an object nobody else borrows from; all host kinds; both "
              "character types. Non-trivial = the final object was not yet owner and has >= 3 non-empty components including a host, or borrows from >= 2 source texts; distinct by history"
-             " In a quarter of the cases the k-th allocation (k in 1..8) of the final step fails once (default manager, through the redirected libc references): the caller's texts and all other objects must be untouched and everything must still be releasable."),
+             " In a quarter of the cases the k-th allocation (k in 1..8) of the final step fails once (default manager, through the redirected libc references): the caller's texts and all other objects must be untouched and everything must still be releasable."
+             " One final normalisation in ten uses a mask with bits beyond the documented six (64, 1<<20, 0x80000000, ~63, -1)."),
     "assumptions": ["a caller does not change an object in place while other live objects borrow from it (histories are generated legal)"],
 }
 
@@ -306,7 +317,8 @@ PROPS["C13"] = {
     "rule": ("histories of 2 parses + 1..8 steps + 0..2 dissect/compose/free-list steps, manager chosen per step among {NULL, A, B, completed}; both character types. Non-trivial = >= 3 manager-taking "
              "calls on >= 2 objects; distinct by history (incomplete-manager combinations counted separately)"
              " For a quarter of the steps the j-th request of that call fails once, whichever manager serves it; all ledger invariants are checked regardless of the return code."
-             " The incomplete-manager enumeration runs in three operand states: freshly parsed, made owner, owner through a partial normalisation."),
+             " The incomplete-manager enumeration runs in three operand states: freshly parsed, made owner, owner through a partial normalisation."
+             " The completed manager's backend offers calloc / realloc / reallocarray of its own in a third of the histories; uriTestMemoryManager is exercised on complete and incomplete managers."),
     "assumptions": ["an object is always released with the manager that built it"],
 }
 
@@ -344,7 +356,8 @@ PROPS["C20"] = {
     "thorough": {"cases": [12000, 12000], "ceiling_s": 3000},
     "rule": ("workload = shared inputs from correlated generators + 2..8 threads x 3..10 ops (13 op kinds) x 3 repetitions with generated yield/spin points, char or wchar_t API; run once under ASan with the "
              "writable-segment checksum and once under TSan. Non-trivial = >= 2 threads and >= 2 ops on shared operands; distinct by workload"
-             " Half of the ops on resolve / create-reference / private parse+normalise / parse+make-owner go through a thread-private recording manager, most of them with its k-th request failing once; the manager must never be handed a block that is not its own (e.g. one belonging to a shared operand) and must end empty."),
+             " Half of the ops on resolve / create-reference / private parse+normalise / parse+make-owner go through a thread-private recording manager, most of them with its k-th request failing once; the manager must never be handed a block that is not its own (e.g. one belonging to a shared operand) and must end empty."
+             " A further op completes a thread-private manager from one shared backend manager (an input that must stay unchanged). One workload in six shares operands whose absolute-path flag was set by hand."),
     "assumptions": ["threads only write to their own outputs (the statement's precondition)"],
 }
 
